@@ -227,39 +227,34 @@ func levKey(k ssa.Value) (i, j ssa.Value, why string) {
 	return el[0], el[1], ""
 }
 
-// fullByteLoop: v is phi[0, v+1] controlled by v < 256.
+// fullByteLoop: v takes exactly the values 0..255, once each: the variable of `for v := 0; v < 256; v++`
+// or of `for v := range 256`.
 func fullByteLoop(v ssa.Value) string {
-	phi, ok := v.(*ssa.Phi)
-	if !ok || len(phi.Edges) != 2 {
+	phi := loopPhiOf(v)
+	if phi == nil {
 		return "index is not a loop variable"
 	}
-	okInit, okStep := false, false
-	for _, e := range phi.Edges {
-		if k, ok := cInt(constVal(e)); ok && k == 0 {
-			okInit = true
-		}
-		if b, ok := e.(*ssa.BinOp); ok && b.Op == token.ADD && b.X == v {
-			if k, ok := cInt(constVal(b.Y)); ok && k == 1 {
-				okStep = true
+	l, why := findCountedLoopAny(phi, v)
+	if why != "" {
+		return why
+	}
+	if k, ok := cInt(constVal(l.bound)); !ok || k != 256 {
+		return "loop bound is not `< 256`"
+	}
+	// no other way out of the loop than its bound test
+	nl := naturalLoop(phi.Block())
+	isGuard := map[*ssa.BasicBlock]bool{phi.Block(): true}
+	for _, g := range l.guards {
+		isGuard[g] = true
+	}
+	for blk := range nl {
+		for _, su := range blk.Succs {
+			if !nl[su] && !isGuard[blk] {
+				return "the loop has an exit other than its bound test"
 			}
 		}
 	}
-	if !okInit || !okStep {
-		return "loop variable does not run from 0 in steps of 1"
-	}
-	for _, ref := range *phi.Referrers() {
-		if b, ok := ref.(*ssa.BinOp); ok && b.Op == token.LSS && b.X == v {
-			if k, ok := cInt(constVal(b.Y)); ok && k == 256 {
-				// must be the controlling condition of an If in the phi's block
-				if blk := phi.Block(); len(blk.Instrs) > 0 {
-					if iff, ok := blk.Instrs[len(blk.Instrs)-1].(*ssa.If); ok && iff.Cond == b {
-						return ""
-					}
-				}
-			}
-		}
-	}
-	return "loop bound is not `< 256`"
+	return ""
 }
 
 // dominatingRelation reports whether blk is only reachable through the equal ("eq") or unequal ("ne") edge of a comparison of i and j.
